@@ -1,5 +1,5 @@
 """C20 -- eigenvector tools: sorting recovers the permutation; conversion restores a basis."""
-import importlib, itertools, os, shutil, tempfile, types
+import importlib, itertools, os, re as _re, shutil, tempfile, types
 import numpy
 import z3
 from vf import core, smt, symnp
@@ -132,6 +132,7 @@ def run(s):
 
     sort_loop_rule(s)
     load_lemmas(s)
+    load_structure(s)
     bounded_d2e(s, d2e)
     bounded_sort(s)
     bounded_load(s)
@@ -529,7 +530,9 @@ def load_lemmas(s):
             pattern = rx.pattern if hasattr(rx, "pattern") else rx
             if getattr(rx, "flags", _re.UNICODE) not in (_re.UNICODE, 0):
                 raise core.OutsideSubset("regex flags on the %s pattern" % label)
-            return C17.ob_regex_lemma(pattern, spec, None, "evec_load, %s" % label, replay_fn=C17.native_search(pattern, spec))
+            r = C17.ob_regex_lemma(pattern, spec, LAYOUT_DOMAIN, "evec_load, %s" % label, replay_fn=C17.native_search(pattern, spec))
+            REGEX_LEMMAS[label] = r.status
+            return r
         s.oblige("C20.evec_load.regex[%s]" % label, ob, ["evec_load._read_q_points" if label.startswith("q") else "evec_load._read_modes"],
                  fallback=lambda: {"reproduced": False, "note": "bounded run C20.evec_load.matdyn_layout decides"})
 
@@ -557,6 +560,295 @@ def load_lemmas(s):
         return core.proved("finite", "the six slices %s read the six F10.6 fields %s of the stripped vector line (values |x| < 10)" % (sorted(sl), fields))
     s.oblige("C20.evec_load.vector_slices_cover_fields", slices, ["evec_load._read_vecs"], kind="finite",
              fallback=lambda: {"reproduced": False, "note": "bounded run C20.evec_load.matdyn_layout decides"})
+
+
+# every (stripped) line of the layout: the domain of the regex lemmas' third clause -- on a line of the layout that is not of the pattern's own kind the search returns None
+VEC_LINE_SPEC = r"\((?: *-?[0-9]\.[0-9]{6}){6} *\)"
+def _noncapturing(spec):
+    """the same language with every capturing group made non-capturing (escaped parentheses untouched)"""
+    out, k = "", 0
+    while k < len(spec):
+        if spec[k] == "\\":
+            out += spec[k:k + 2]
+            k += 2
+        elif spec[k] == "(" and spec[k + 1:k + 2] != "?":
+            out += "(?:"
+            k += 1
+        else:
+            out += spec[k]
+            k += 1
+    return out
+
+
+LAYOUT_DOMAIN = "(?:%s|%s|%s|%s|%s|)" % (_noncapturing(Q_LINE_SPEC), _noncapturing(MODE_LINE_SPEC), VEC_LINE_SPEC, r"\*{74}", r"diagonalizing the dynamical matrix \.\.\.")
+REGEX_LEMMAS = {}
+
+
+class _Tok:
+    """an abstract printed token of the file: ('q', iq, c) | ('mode_id' | 'thz' | 'cm1', iq, k) | ('vec', iq, k, atom, field 0..5)"""
+
+    def __init__(self, what):
+        self.what = what
+
+
+class _Num:
+    """float()/int() of a token, and the complex combinations the reader forms of them: value = re + i im with re, im token names (or None)"""
+
+    def __init__(self, re_=None, im=None):
+        self.re, self.im = re_, im
+
+    def __mul__(self, o):
+        if o == 1j and self.im is None:
+            return _Num(None, self.re)
+        if o == 1 or o == 1.0:
+            return self
+        raise core.OutsideSubset("arithmetic on a parsed number that the structure contract does not model (* %r)" % (o,))
+    __rmul__ = __mul__
+
+    def __add__(self, o):
+        if isinstance(o, _Num) and not (self.re is not None and o.re is not None) and not (self.im is not None and o.im is not None):
+            return _Num(self.re if self.re is not None else o.re, self.im if self.im is not None else o.im)
+        if o == 0:
+            return self
+        raise core.OutsideSubset("arithmetic on a parsed number that the structure contract does not model (+ %r)" % (o,))
+    __radd__ = __add__
+
+    def key(self):
+        return (self.re, self.im)
+
+    def _value_dependent(self, *a):
+        raise core.OutsideSubset("the reader branches on / compares the VALUE of a parsed number: the structure contract keeps contents abstract")
+    __bool__ = __eq__ = __ne__ = __lt__ = __le__ = __gt__ = __ge__ = __abs__ = __neg__ = _value_dependent
+    __hash__ = object.__hash__
+
+
+def _absnum(x, *a):
+    if isinstance(x, _Tok):
+        return _Num(x.what)
+    if isinstance(x, _Num):
+        return x
+    if isinstance(x, _Line):
+        raise core.OutsideSubset("a whole line is converted to a number")
+    return float(x, *a)
+
+
+def _abscomplex(x=0, y=0):
+    if isinstance(x, (_Num, _Tok)) or isinstance(y, (_Num, _Tok)):
+        x = _absnum(x) if isinstance(x, (_Num, _Tok)) else x
+        y = _absnum(y) if isinstance(y, (_Num, _Tok)) else y
+        return (x if isinstance(x, _Num) else _Num()) + ((y * 1j) if isinstance(y, _Num) else _Num()) if (isinstance(y, _Num) or y == 0) else x
+    return complex(x, y)
+
+
+class _Line:
+    """an abstract line of the layout: its kind and position in the file; contents are tokens"""
+    FIELDS = []          # (first column, end column) of the six F10.6 fields in the STRIPPED vector line
+    col = 1
+    for _c in range(3):
+        FIELDS.append((col, col + 10)); col += 11
+        FIELDS.append((col, col + 10)); col += 13
+
+    def __init__(self, kind, ids, stripped=False):
+        self.kind, self.ids, self.stripped = kind, ids, stripped
+
+    def strip(self, *a):
+        if a and a[0] is not None:
+            raise core.OutsideSubset("strip(%r)" % (a,))
+        return _Line(self.kind, self.ids, True)
+    rstrip = strip
+
+    def __getitem__(self, sl):
+        if self.kind != "vec":
+            raise _Misread("a fixed-column field is cut out of a %s line (q-point %d)" % (self.kind, self.ids[0]))
+        if not isinstance(sl, slice) or sl.step not in (None, 1) or sl.start is None or sl.stop is None:
+            raise core.OutsideSubset("vector line indexed by %r" % (sl,))
+        off = 0 if self.stripped else 1          # the raw line carries one leading blank (1X)
+        a, b = sl.start - off, sl.stop - off
+        for f, (fa, fb) in enumerate(self.FIELDS):
+            if fa <= a <= fa + 1 and fb <= b <= fb + 1:          # the rule of C20.evec_load.vector_slices_cover_fields
+                return _Tok(("vec",) + tuple(self.ids) + (f,))
+        raise _Misread("slice [%s:%s] of a vector line covers none of the six F10.6 fields" % (sl.start, sl.stop))
+
+    def split(self, *a):
+        raise core.OutsideSubset("the reader splits lines at white space (the structure contract models the fixed-column reader)")
+
+
+class _Misread(Exception):
+    pass
+
+
+class _Match:
+    def __init__(self, toks):
+        self.toks = tuple(toks)
+
+    def groups(self):
+        return self.toks
+
+    def group(self, *idx):
+        if not idx:
+            raise core.OutsideSubset("group() of a whole match")
+        out = tuple(self.toks[i - 1] for i in idx)
+        return out[0] if len(out) == 1 else out
+
+    def __getitem__(self, i):
+        return self.group(i)
+
+
+class _Rx:
+    """contract stub of a compiled pattern, justified by the three clauses of C20.evec_load.regex[...]: on a line of its own kind the match starts at 0 and captures the
+    printed tokens; on every other line of the layout search returns None"""
+
+    def __init__(self, kind, label, pattern):
+        self.kind, self.label, self.pattern = kind, label, pattern
+
+    def search(self, line, *a):
+        if not isinstance(line, _Line):
+            raise core.OutsideSubset("pattern applied to %r" % type(line).__name__)
+        if REGEX_LEMMAS.get(self.label) != core.PROVED:
+            raise core.OutsideSubset("premise not available: C20.evec_load.regex[%s] is not proved on this source" % self.label)
+        if line.kind != self.kind:
+            return None
+        iq = line.ids[0]
+        if self.kind == "q":
+            return _Match([_Tok(("q", iq, c)) for c in range(3)])
+        return _Match([_Tok((w, iq, line.ids[1])) for w in ("mode_id", "thz", "cm1")])
+    match = search          # by the lemma the match starts at position 0 of the stripped line; on a raw line `match` would fail on the leading blanks:
+
+    def fullmatch(self, line, *a):
+        raise core.OutsideSubset("fullmatch")
+
+
+def abstract_layout(nq, nat):
+    out = []
+    for iq in range(nq):
+        out += [_Line("diag", (iq,)), _Line("blank", (iq,)), _Line("q", (iq,)), _Line("stars", (iq,))]
+        for k in range(3 * nat):
+            out.append(_Line("mode", (iq, k)))
+            out += [_Line("vec", (iq, k, a)) for a in range(nat)]
+        out.append(_Line("stars", (iq,)))
+    return out
+
+
+class _AbsFile:
+    def __init__(self, lines):
+        self.it = iter(lines)
+
+    def __enter__(self):
+        return self
+
+    def __exit__(self, *a):
+        return False
+
+    def __iter__(self):
+        return self
+
+    def __next__(self):
+        return next(self.it)
+
+    def readline(self):
+        return next(self.it, "")
+
+    def readlines(self):
+        return list(self.it)
+
+    def close(self):
+        pass
+
+    def read(self, *a):
+        raise core.OutsideSubset("the reader takes the file as one string (the structure contract models the line-by-line reader)")
+
+
+def load_structure(s):
+    """[F x symbolic] the reader's LINE STRUCTURE for every layout of the quantifier (1-6 q-points x 1-20 atoms, all 120), contents abstract: the real evec_load runs on a
+    stream of abstract lines (kind + position); its two patterns are contract stubs justified by the regex lemmas, float/int of a token is that token's value (A-FLOAT),
+    a slice of a vector line is the field it covers.  Post: q-point iq's coordinates are the three tokens of ITS q line, mode k carries the index / THz / cm-1 tokens of
+    ITS mode line and, in order, (re, im) of the three components of every atom from ITS vector lines."""
+    el = importlib.import_module("cij.misc.evec_load")
+    from contracts.nonshear_env import patched
+
+    def ob():
+        rxq, rxm = getattr(el, "Q_COORDS_REGEX", None), getattr(el, "MODE_INDEX_REGEX", None)
+        if rxq is None or rxm is None:
+            raise core.OutsideSubset("the reader no longer has the two module-level patterns")
+        n = 0
+        for nq in range(1, 7):
+            for nat in range(1, 21):
+                npm = 3 * nat
+                stubs = dict(Q_COORDS_REGEX=_Rx("q", "q-point line", rxq), MODE_INDEX_REGEX=_Rx("mode", "mode line", rxm), open=lambda *a, **k: _AbsFile(abstract_layout(nq, nat)),
+                             float=_absnum, int=_absnum, complex=_abscomplex)
+                msg = None
+                try:
+                    with patched(el, **stubs):
+                        got = el.evec_load("abstract.eig", nq, npm)
+                    got = list(got)
+                    if len(got) != nq:
+                        msg = "%d q-points returned" % len(got)
+                    for iq in range(nq):
+                        if msg:
+                            break
+                        qc, ms = got[iq]
+                        if [getattr(x, "key", lambda: None)() for x in qc] != [(("q", iq, c), None) for c in range(3)]:
+                            msg = "coordinates of q-point %d are not the three numbers of its own q line" % iq
+                            break
+                        ms = list(ms)
+                        if len(ms) != npm:
+                            msg = "q-point %d has %d modes" % (iq, len(ms))
+                            break
+                        for k in range(npm):
+                            head, vec = ms[k]
+                            if [getattr(x, "key", lambda: None)() for x in head] != [((w, iq, k), None) for w in ("mode_id", "thz", "cm1")]:
+                                msg = "q-point %d mode %d: index / THz / cm-1 are not the numbers of its own mode line" % (iq, k + 1)
+                                break
+                            want = [(("vec", iq, k, a, 2 * c), ("vec", iq, k, a, 2 * c + 1)) for a in range(nat) for c in range(3)]
+                            if [getattr(x, "key", lambda: None)() for x in vec] != want:
+                                msg = "q-point %d mode %d: the components are not (re, im) of the six fields of its own %d vector lines, in order" % (iq, k + 1, nat)
+                                break
+                        if msg:
+                            break
+                except _Misread as e:
+                    msg = str(e)
+                except StopIteration:
+                    msg = "the reader runs past the end of the file"
+                except (AttributeError, TypeError) as e:
+                    # e.g. None.groups(): a pattern applied to a line of another kind
+                    if "NoneType" in str(e):
+                        msg = "a pattern is applied to a line of another kind (%s)" % e
+                    else:
+                        raise core.OutsideSubset("the code used an abstract line / number in a way the structure contract does not model (%s: %s)" % (type(e).__name__, e))
+                n += 1
+                if msg:
+                    rep = native_layout(el, nq, nat)
+                    r = core.refuted("finite", "layout of %d q-point(s) x %d atom(s) (%d modes): %s" % (nq, nat, npm, msg), witness_id="structure:%d:%d" % (nq, nat))
+                    r.replay = rep
+                    return r
+        return core.proved("finite", "all %d layouts of the quantifier (1-6 q-points x 3-60 modes), contents abstract: every returned number is the token of its own line and field" % n)
+    s.oblige("C20.evec_load.line_structure(all 120 layouts, abstract contents)", ob, ["evec_load.evec_load", "evec_load._read_q_points", "evec_load._read_modes", "evec_load._read_vecs"],
+             kind="finite", fallback=lambda: {"reproduced": False, "note": "bounded run C20.evec_load.matdyn_layout decides"})
+
+
+def native_layout(el, nq, nat):
+    """replay of a structure refutation on the real reader: a rendered file of that layout with random contents"""
+    rnd = numpy.random.RandomState(nq * 100 + nat)
+    npm = 3 * nat
+    qs = numpy.round(rnd.uniform(-1, 1, size=(nq, 3)), 4)
+    modes = [[(round(float(rnd.uniform(-2, 60)), 6), round(float(rnd.uniform(-60, 2000)), 6), numpy.round(rnd.uniform(-1, 1, size=npm), 6) + 1j * numpy.round(rnd.uniform(-1, 1, size=npm), 6))
+              for _ in range(npm)] for _ in range(nq)]
+    tmp = tempfile.mkdtemp(prefix="c20s_")
+    try:
+        p = os.path.join(tmp, "f.eig")
+        with open(p, "w") as fp:
+            fp.write(render_eig(qs, modes))
+        try:
+            got = el.evec_load(p, nq, npm)
+            ok = len(got) == nq and all(numpy.allclose(got[q][0], qs[q], atol=1e-9) and len(got[q][1]) == npm and all(
+                got[q][1][k][0][0] == k + 1 and abs(got[q][1][k][0][1] - modes[q][k][0]) < 1e-9 and abs(got[q][1][k][0][2] - modes[q][k][1]) < 1e-9 and
+                len(got[q][1][k][1]) == npm and numpy.allclose(numpy.array(got[q][1][k][1]), modes[q][k][2], atol=1e-9) for k in range(npm)) for q in range(nq))
+            return {"reproduced": not ok, "input": {"nq": nq, "modes": npm, "file": "rendered matdyn layout, RandomState(%d)" % (nq * 100 + nat)},
+                    "observed": "parsed values %s the printed ones" % ("equal" if ok else "differ from")}
+        except Exception as e:  # noqa: BLE001
+            return {"reproduced": True, "input": {"nq": nq, "modes": npm}, "observed": "raises %r" % (e,)}
+    finally:
+        shutil.rmtree(tmp, ignore_errors=True)
 
 
 def render_eig(qs, modes):
@@ -663,11 +955,12 @@ MANIFEST = {
             "premises of the invariant are discharged by z3 for every n, the ghost counter by three Lean lemmas; post: result[i] = target_arr[pi(i)] "
             "for the dominant-overlap bijection pi. Bounded as well: all permutations for d <= 4, random d <= 60, phases, 5 % perturbation, dimension "
             "mismatches rejected. evec_load: the reader's two regular expressions are proved (tagged-automata inclusion over ALL strings) to match at position 0 and capture "
-            "exactly the printed tokens of every q-point line and every mode line of matdyn's layout; the six constant slices of the vector lines are checked against the "
+            "exactly the printed tokens of every q-point line and every mode line of matdyn's layout, and to match nowhere in any other line of the layout; the real reader run on abstract line streams of all 120 layouts returns, for every q-point and mode, the tokens of its own lines and fields in order; the six constant slices of the vector lines are checked against the "
             "F10.6 columns of the stripped line; bounded: every (q-points, modes) layout of the quantifier rendered (the renderer reproduces the shipped file line for line) "
             "and read back, also right after the same path held other values.",
     "note": "For evec_sort the step from 'permuted, re-phased, 5 %-perturbed unitary basis' to the dominance precondition is a stated lemma (A-DOM), the "
             "dimension check in front of the loop is only enumerated, argmax / unravel_index / matmul are contract stubs. The loader's line STRUCTURE (which line "
-            "follows which) and float() of the printed tokens are bounded only (120 / 600 files; 59+33 / 2006+33 sort cases, 30 / 1500 conversion cases); matdyn's layout is an "
+            "follows which) is decided for the complete layout space of the quantifier (120 layouts, abstract contents: the real reader on a stream of abstract lines, its two patterns "
+            "replaced by stubs justified by the three-clause regex lemmas incl. 'no match on any other line of the layout'); float() of the printed tokens is bounded only (120 / 600 files; 59+33 / 2006+33 sort cases, 30 / 1500 conversion cases); matdyn's layout is an "
             "assumption (A-MATDYN).",
 }
